@@ -179,6 +179,19 @@ Proof.
   intros. rewrite mwrite_some by (sz; lia). sz. rewrite Z.add_0_r. now rewrite takeZ_dropZ.
 Qed.
 
+Lemma mread_some m i : 0 <= i < lenZ m -> exists v, mread m i = Some v.
+Proof.
+  intros. unfold mread. destruct (Z.leb_spec 0 i); [|lia].
+  destruct (dropZ i m) eqn:D; eauto.
+  pose proof (lenZ_dropZ i m). rewrite D in H1. rewrite lenZ_nil0 in H1. lia.
+Qed.
+Lemma mreadn_some m n : 0 <= n <= lenZ m -> exists d, mreadn m 0 n = Some d.
+Proof.
+  intros. unfold mreadn. rewrite fits_spec. simpl.
+  destruct (Z.leb_spec 0 n); [|lia]. simpl. rewrite Z.add_0_l. destruct (Z.leb_spec n (lenZ m)); [|lia]. eauto.
+Qed.
+
+
 (** * exec *)
 Lemma all_full_app a b : all_full (a ++ b) = all_full a && all_full b.
 Proof. apply forallb_app. Qed.
@@ -529,6 +542,18 @@ Proof.
     repeat split; auto; rewrite in_app_iff; tauto.
 Qed.
 End NoFault.
+
+Lemma drain_step {S} (body : S -> prog S) fu s kb : kb <> [] ->
+  drain body (Datatypes.S fu) s kb =
+  let '(o, kb1, e1) := exec (body s) kb in
+  match o with
+  | None => ({| inner := s; dead := 2 |}, e1)
+  | Some (s1, r) =>
+      if r <? 0 then ({| inner := s1; dead := 1 |}, e1)
+      else if lenZ kb1 =? lenZ kb then ({| inner := s1; dead := 3 |}, e1 ++ [ELive])
+      else let '(w, e2) := drain body fu s1 kb1 in (w, e1 ++ e2)
+  end.
+Proof. destruct kb; [congruence | reflexivity]. Qed.
 
 (** cleanliness / absence of defect markers lifts from calls to runs *)
 Section Lift.
